@@ -61,8 +61,9 @@ fn all_blocks(st: &HState) -> Vec<SemanticStack<HInstr>> {
     out
 }
 
-/// returns the flags line and, when the AST serialises, its canonical JSON (sorted keys)
-pub fn check(p: &Prog) -> (String, Option<String>) {
+/// returns the flags line, when the AST serialises its canonical JSON (sorted keys), and the
+/// canonical JSON of the function root stacks
+pub fn check(p: &Prog) -> (String, Option<String>, Option<String>) {
     let res = std::panic::catch_unwind(std::panic::AssertUnwindSafe(|| {
         let ast: AMain<'_> = toast::main(p);
         let mut flags: Vec<(&str, bool)> = vec![];
@@ -91,6 +92,8 @@ pub fn check(p: &Prog) -> (String, Option<String>) {
         flags.push(("run_eq", run_eq));
         let mut st: HState = State::new();
         st.run(&ast);
+        let roots: Vec<SemanticStack<HInstr>> = st.context.iter().map(|b| b.borrow().get_context()).collect();
+        let stacks = serde_json::to_value(&roots).ok().map(|v| v.to_string());
         let (g_eq, g_text, g_val) = stack_rt(&st.global.context);
         flags.push(("gstack_eq", g_eq));
         flags.push(("gstack_text", g_text));
@@ -121,10 +124,10 @@ pub fn check(p: &Prog) -> (String, Option<String>) {
             .map(|(k, v)| format!("{}={}", k, u8::from(*v)))
             .collect::<Vec<_>>()
             .join(" ");
-        (line, canon)
+        (line, canon, stacks)
     }));
     match res {
         Ok(x) => x,
-        Err(_) => ("panic=1".to_string(), None),
+        Err(_) => ("panic=1".to_string(), None, None),
     }
 }
